@@ -22,6 +22,7 @@ def plan(seed, overrides=None):
         "nest_p": rc.choice([0.0, 0.2, 0.4, 0.6]),
         "wrap_p": rc.choice([0.0, 0.3, 0.6]),
         "fault_mode": rc.choice(["none", "none", "interrupt", "interrupt", "io", "mixed", "mixed"]),
+        "mtime_mode": rc.choice(["fine", "fine", "coarse", "frozen"]),
         "buffer_size": rc.choice([1, 2, 3, 7, 16, 64, 512, 8192]),
         "n_nets": rc.randint(1, 3),
         "n_cirs": rc.randint(1, 3),
